@@ -22,7 +22,10 @@ RULE = ("(a) atom histories from one PRNG (VERIF_SEED): 1-3 groups (valid and in
         "elements, Vdatas, Vgroups, images, datasets) with whole-content reads through every id, Vinsert with ids of the "
         "same / another file; SD table histories: files closed out of order, SDreset_maxopenfiles with every request around "
         "the number of open files and the highest occupied position (and far ones, and on the unallocated table), every "
-        "live SD id used after each request, more opens afterwards; each answer of the library is judged by the abstract handle table (identity of the object "
+        "live SD id used after each request, more opens afterwards; issue calls while the system refuses the next stream "
+        "(fopen interposed): nested opens of an open path in every mode combination, first opens, SDstart, external-element, "
+        "Vdata and bit attaches, every live handle read afterwards; annotation ids of all four types over two AN sessions on "
+        "one file id; each answer of the library is judged by the abstract handle table (identity of the object "
         "computed from the content returned).  (c) file machine histories (open/close/"
         "start/end, shared paths).  (d) the positions NC_open assigns and the results of NC_reset_maxopenfiles are compared "
         "with the model of the open-file table (ct_step).  A case is one call; distinct by (history text, position)")
@@ -231,6 +234,8 @@ class Shadow:
         self.refs = {0: {1, 2, 3, 4, 5, 6}, 1: {1, 2, 3, 4, 5, 6}, 2: {1, 2, 3, 4, 5, 6}}   # 3 linked 4 compressed 5 external 6 chunked
         self.pairs = set()
         self.newvg = 5
+        self.denying = False
+        self.created_ann = set()
 
     def new(self, kind, parent=None, p=None, idx=None):
         s = self.nslot
@@ -251,9 +256,11 @@ class Shadow:
     def hopen(self, p, mode):
         if self.nslot >= 38:
             return None
-        ok = 1 if mode in "rw" else 0
+        ok = 1 if mode in "rw" and not self.denying else 0
         s = self.new("file", p=p)
         self.emit("hopen %d %d %s %d" % (s, p, mode, ok))
+        if self.denying:
+            self.slots[s]["maybe"] = True
         if ok:
             self.path_open[p] += 1
             if mode == "w":
@@ -266,10 +273,29 @@ class Shadow:
         if self.nslot >= 38:
             return None
         s = self.new("sd", p=p)
+        if self.denying:
+            self.emit("sdstart %d %d %s 0" % (s, p, mode))
+            self.slots[s]["live"] = False
+            self.slots[s]["maybe"] = True
+            return s
         self.emit("sdstart %d %d %s 1" % (s, p, mode))
         self.path_open[p] += 1
         if mode == "w":
             self.path_w[p] = True
+        return s
+
+    def denied(self, what, *args):
+        """an issue call while the system refuses the next stream the library opens; afterwards every live handle is
+        used (whole content): a refused open / attach must leave them all as they were"""
+        self.emit("denyopen 0 1")
+        self.denying = True
+        try:
+            s = getattr(self, what)(*args)
+        finally:
+            self.denying = False
+        self.emit("denyopen 0 0")
+        for h in [x for x, d in self.slots.items() if d["live"]]:
+            self.use(h, alt=True)
         return s
 
     def child(self, kind, ps, want=None):
@@ -279,11 +305,15 @@ class Shadow:
             return None
         r = self.r
         d = self.slots.get(ps, dict(kind="?", live=False, p=0))
+        book = ps
+        if d["kind"] == "an" and kind in ("aid", "bit", "vg", "vs", "gr") and d.get("parent") in self.slots:
+            book = d["parent"]            # the AN interface id IS the file id: the call works on that file
+            d = self.slots[book]
         plive = d["live"]
         p = d.get("p") or 0
         good = {"aid": "file", "bit": "file", "vg": "file", "vs": "file", "gr": "file", "an": "file", "ri": "gr",
                 "ann": "an", "sds": "sd", "dim": "sds"}[kind] == d["kind"] and plive
-        s = self.new(kind, parent=ps, p=p)
+        s = self.new(kind, parent=book, p=p)
         ok = 0
         if kind == "aid":
             ref = want if want is not None else r.choice(sorted(self.refs[p]) + [r.choice([1, 2, 7])])
@@ -296,7 +326,7 @@ class Shadow:
             ok = int(good)
             self.emit("hbit %d %d %d %d" % (s, ps, ref, ok))
         elif kind == "vg":
-            vst = self.vstarted.get(ps, 0) > 0
+            vst = self.vstarted.get(book, 0) > 0
             if (want == "new" or (want is None and r.random() < 0.2)) and self.path_w[p] and self.newvg < 10:
                 idx = self.newvg
                 self.newvg += 1
@@ -309,7 +339,7 @@ class Shadow:
                 ok = int(good and vst and (not w or self.path_w[p]))
                 self.emit("vattach %d %d %d %s %d" % (s, ps, idx, "w" if w else "r", ok))
         elif kind == "vs":
-            vst = self.vstarted.get(ps, 0) > 0
+            vst = self.vstarted.get(book, 0) > 0
             idx = want if want is not None else r.choice([0, 1])
             ok = int(good and vst)
             self.emit("vsattach %d %d %d r %d" % (s, ps, idx, ok))
@@ -324,9 +354,22 @@ class Shadow:
             ok = int(good and idx < 2 + p)
             self.emit("grselect %d %d %d %d" % (s, ps, idx, ok))
         elif kind == "ann":
-            idx = want if want is not None else r.choice([0, 1, 1 + p, 2 + p, 7])
-            ok = int(good and idx < 2 + p)
-            self.emit("anselect %d %d %d %d" % (s, ps, idx, ok))
+            # want = annotation type (0 data label, 1 data description, 2 file label, 3 file description) or ("new", type)
+            if isinstance(want, tuple):
+                t = want[1]
+                ok = int(good and self.path_w[p] and t != 2)
+                self.emit("ancreate %d %d %d %d" % (s, ps, t, ok))
+                self.created_ann.add((p, t))
+                idx = 4
+            else:
+                t = want if want is not None else r.randrange(4)
+                n = 2 + p if t == 2 else 2
+                idx = r.choice([0, 1, n - 1, n, 7])
+                ok = int(good and idx < n and (p, t) not in self.created_ann)
+                if (p, t) in self.created_ann:
+                    idx = 7                       # indices of this type have shifted: only the refusal is meaningful
+                    ok = 0
+                self.emit("anselect %d %d %d %d %d" % (s, ps, idx, ok, t))
         elif kind == "sds":
             idx = want if want is not None else r.choice([0, 1, 1 + p, 2 + p, 7])
             ok = int(good and idx < 2 + p)
@@ -335,6 +378,9 @@ class Shadow:
             ok = int(good)
             self.emit("sddim %d %d %d" % (s, ps, ok))
         self.slots[s]["idx"] = locals().get("idx")
+        if self.denying and ok:
+            ok = 0
+            self.ops[-1] = self.ops[-1].rsplit(" ", 1)[0] + " 0" if kind != "ann" else self.ops[-1]
         if not ok:
             self.slots[s]["live"] = False
             self.slots[s]["maybe"] = True
@@ -440,7 +486,10 @@ def fam_history(r, fam, perm_index=None):
                 sh.release(k)
             hs = [f1, kids[0], kids[1], sh.child("ri", r.choice(kids[:2]))]
         if fam == "an":
-            hs = [f1, kids[0], sh.child("ann", kids[0]), sh.child("ann", kids[0])]
+            k = perm_index or 0
+            hs = [f1, kids[0], sh.child("ann", kids[0], k % 4), sh.child("ann", kids[0], (k // 4 + k + 1) % 4)]
+            if sh.path_w[p] and k % 3 == 0:
+                hs[-1] = sh.child("ann", kids[0], ("new", r.choice([0, 1, 3])))
     else:  # sd
         s1 = sh.sdstart(p, r.choice("rw"))
         k1 = sh.child("sds", s1)
@@ -516,6 +565,13 @@ def rand_history(r, nops):
                 sh.ops.pop()
         elif x < 0.42 and r.random() < 0.25:
             sh.sdreset(r.choice([0, 1, 2, 3, 4, 5, 6, 33]))
+        elif x < 0.42 and r.random() < 0.2:
+            if r.random() < 0.5:
+                sh.denied("hopen", r.randrange(3), r.choice("rww"))
+            else:
+                sh.denied("sdstart", r.randrange(3), r.choice("rw"))
+        elif x < 0.42 and r.random() < 0.15 and sh.live("an"):
+            sh.child("ann", r.choice(sh.live("an")), ("new", r.choice([0, 1, 3])))
         elif x < 0.45:
             vgs = sh.live("vg")
             kids = sh.live("vg") + sh.live("vs")
@@ -683,6 +739,69 @@ def sdtab_history(r, k):
     return sh.ops
 
 
+def ann_history(r, k):
+    """annotation ids of all four types (data label, data description, file label, file description) over two AN
+    sessions on one file id: every id works during its session (length and text), none after ANend -- neither before,
+    during nor after the second session --, the second session issues working ids again; optionally a created one."""
+    sh = Shadow(r)
+    p = k % 3
+    f = sh.hopen(p, "w" if k % 2 else "r")
+    an = sh.child("an", f)
+    types = [0, 1, 2, 3]
+    if k % 4 == 1:
+        r.shuffle(types)
+    first = [sh.child("ann", an, t) for t in types for _ in range(2)]
+    if k % 2 and k % 4 == 3:
+        first.append(sh.child("ann", an, ("new", r.choice([0, 1, 3]))))
+    for h in first:
+        sh.use(h)
+    sh.release(an)
+    for h in first:
+        sh.use(h)                                   # stale: must be refused
+    an2 = sh.child("an", f)
+    second = [sh.child("ann", an2, t) for t in types]
+    for h in first + second:
+        sh.use(h)
+    sh.release(an2)
+    for h in first + second:
+        sh.use(h)
+    teardown(sh)
+    for h in second[:2]:
+        sh.use(h)
+    return sh.ops
+
+
+def deny_history(r, k):
+    """issue calls that the system refuses (the stream the library tries to open is denied): nested opens of an open path
+    in every mode combination, first opens, SDstart, external-element access -- with files, access elements, Vdatas and
+    datasets live, all of which must work exactly as before afterwards"""
+    sh = Shadow(r)
+    p = r.randrange(3)
+    q = (p + 1 + k % 2) % 3
+    f1 = sh.hopen(p, "r" if k % 4 < 3 else "w")
+    f2 = sh.hopen(q, r.choice("rw")) if k % 2 else None
+    sd = sh.sdstart(r.choice([p, q]), "r") if k % 3 == 0 else None
+    kids = [sh.child("aid", f1, r.choice([1, 3, 4, 6])), sh.child("aid", f1, 5)]
+    sh.vstart(f1)
+    kids.append(sh.child("vs", f1, 1))
+    if sd is not None:
+        kids.append(sh.child("sds", sd, 0))
+    for h in kids:
+        sh.use(h, alt=True)
+    attempts = [("hopen", p, "w"), ("hopen", p, "r"), ("hopen", q, "w"), ("hopen", q, "r"), ("hopen", (q + 1) % 3, "r"),
+                ("sdstart", p, "r"), ("sdstart", q, "w"), ("child", "aid", f1, 5), ("child", "aid", f1, 3),
+                ("child", "vs", f1, 0), ("child", "bit", f1)]
+    r.shuffle(attempts)
+    attempts = [("hopen", p, "w")] + attempts[:4 + k % 3]     # the read-only -> write upgrade first
+    for a in attempts:
+        sh.denied(*a)
+        if r.random() < 0.3:
+            x = sh.hopen(r.choice([p, q]), r.choice("rw"))    # a successful nested open in between
+            sh.use(x)
+    teardown(sh)
+    return sh.ops
+
+
 def teardown(sh):
     """release everything the shadow believes live, children first"""
     # handles whose issue was not plainly valid may exist all the same (e.g. a new element created by a write
@@ -701,6 +820,10 @@ def teardown(sh):
     for f in sorted(set(sh.slots[s]["parent"] for s in maybe)):
         if f is not None and sh.slots[f]["kind"] == "file":
             sh.emit("hclose %d" % f)
+    for s, d in sh.slots.items():                 # opens that were attempted while streams were refused
+        if d.get("maybe") and d["kind"] in ("file", "sd") and not d.get("closed_maybe"):
+            d["closed_maybe"] = True
+            sh.emit("%s %d" % (REL[d["kind"]], s))
 
 
 def reinit_history(r):
@@ -764,7 +887,7 @@ MIX_CORPUS = [
 
 
 ISSUE_KIND = {"hopen": "file", "hstart": "aid", "hbit": "bit", "vattach": "vg", "vsattach": "vs", "grstart": "gr",
-              "grselect": "ri", "anstart": "an", "anselect": "ann", "sdstart": "sd", "sdselect": "sds", "sddim": "dim",
+              "grselect": "ri", "anstart": "an", "anselect": "ann", "ancreate": "ann", "sdstart": "sd", "sdselect": "sds", "sddim": "dim",
               "lit": "lit", "copy": "lit"}
 # calls that look the id up without checking its atom group first (hfile.c, hbitio.c, mfan.c, Vstart/Vend)
 UNTYPED = {"hclose": "file", "hfinq": "file", "vstart": "file", "vend": "file", "hstart": "file", "hbit": "file",
@@ -804,6 +927,12 @@ def foreign_untyped(hist, i):
     return None
 
 
+# known findings that are pure inquiries: the history is judged further after them
+HARMLESS_KNOWN = {"an-id-is-the-file-id:aninfo", "anendaccess-accepts-any-id",
+                  "sd-positional-id-accepted-after-release:sdsinfo", "sd-positional-id-accepted-after-release:sdsread",
+                  "sd-positional-id-accepted-after-release:diminfo"}
+
+
 def signature_of(hist, i, line, verdict_code):
     """Signature of a disagreement, computed from the failing call pattern only (never from ids)."""
     op = hist[i].split()[0]
@@ -835,6 +964,10 @@ def run_mixed(ctx):
         hists.append(("xfile", xfile_history(r, k)))
     for k in range(36 if quick else 360):
         hists.append(("sdtab", sdtab_history(r, k)))
+    for k in range(36 if quick else 360):
+        hists.append(("deny", deny_history(r, k)))
+    for k in range(16 if quick else 160):
+        hists.append(("ann", ann_history(r, k)))
     for k in range(150 if quick else 3000):
         hists.append(("random", rand_history(r, r.randrange(15, 70))[0]))
     for k in range(12 if quick else 150):
@@ -842,7 +975,7 @@ def run_mixed(ctx):
     npf = len(hists)
     for name, h in PARENT_FIRST.items():
         hists.append(("parent-first:" + name, list(h)))
-    exe = ctx.harness("drive_handles", ["drive_handles.c"])
+    exe = ctx.harness("drive_handles", ["drive_handles.c"], wraps=["fopen"])
     mod = ctx.model("atom_model", ["atom_main.ml"], ["atom_model"])
     wd = tempfile.mkdtemp(prefix="c13w-", dir=os.path.join(ctx.bdir, "harness"))
     try:
@@ -903,6 +1036,8 @@ def run_mixed(ctx):
                               % (cls, i, op, BADCODE[code], rl[i], "\n".join(h[:i + 1])), found=True, signature=sig)
                 if len(ctx.violations) > nv:
                     reported = True
+                if len(ctx.violations) == nv and sig in HARMLESS_KNOWN and rl[i].startswith("U "):
+                    continue         # an inquiry the library answers by design: neither side's table changes
                 break                # later verdicts of this history depend on a state the library has left
         if crashed:
             stats["crashes"] += 1
@@ -1035,7 +1170,7 @@ def replay(ctx, path):
         print("replay: %s" % ("library differs from specification" if bad else "agree"))
         return bad
     # mixed history: library trace, monitor verdicts side by side
-    exe = ctx.harness("drive_handles", ["drive_handles.c"])
+    exe = ctx.harness("drive_handles", ["drive_handles.c"], wraps=["fopen"])
     mod = ctx.model("atom_model", ["atom_main.ml"], ["atom_model"])
     wd = tempfile.mkdtemp(prefix="c13r-", dir=os.path.join(ctx.bdir, "harness"))
     bad = 0
